@@ -69,6 +69,11 @@ def profiles_small(n):
         p["switch-at-exact-end"] = table([(POINT, NS_A, 0)] + [(POINT, NS_A, 5 + (r - 1) * STEP56) for r in range(1, 9)] +
                                          [(POINT, NS_M, 1 + (r - 9) * STEP56) for r in range(9, n)])
         # ranks 1..7: 10 + 6*9 = 64 exactly, then a new type
+        # rank 2 is alone in its namespace and has a huge value; the namespace after it spans two blocks
+        # (10 + 6*9 = 64 bytes: seven IDs fill a block, the eighth starts a new one): Advance(2) on lists without rank 2
+        p["absent-then-two-blocks"] = table(
+            [(POINT, NS_A, 0), (POINT, NS_A, 7), (POINT, NS_D, MAXU)] +
+            [(POINT, NS_M, TWO63 + 1 + (r - 3) * STEP56) for r in range(3, n - 1)] + [(PATH, NS_A, 5)])
         p["abs10-then-type"] = table([(PATH, NS_W, TWO63 - 1)] + [(PATH, NS_W, TWO63 + r * STEP56) for r in range(1, 8)] +
                                      [(AREA, NS_W, 7 + (r - 8) * 300) for r in range(8, n)])
     return p
@@ -96,6 +101,12 @@ def profiles_long(n):
         for j in range(m):
             g.append((t, ns, (j * STEP56 + j) if (t + m) % 2 else (100 + 130 * j)))
     p["groups"] = table(g[:n])
+    # ranks 4 and 22 are alone in their namespaces and have huge values; the namespace after rank 4 spans three
+    # blocks: Advance(4) on the lists that lack rank 4 has to stop at the first ID of that namespace
+    p["absent-then-long"] = table([(POINT, NS_A, 0)] + [(POINT, NS_A, 5 + r * STEP56) for r in range(1, 4)] +
+                                  [(POINT, NS_D, MAXU - 1)] +
+                                  [(POINT, NS_M, 3 + (r - 5) * STEP56) for r in range(5, 22)] +
+                                  [(PATH, NS_A, 1 << 62), (PATH, NS_M, 5)] + [(PATH, NS_M, 6 + r) for r in range(n - 24)])
     return p
 
 
@@ -117,7 +128,7 @@ def posting_walk(ctx, cfg, profs_of, depth, tag, col):
             cases.append({"id": len(cases), "kind": "compact", "profile": pname, "table": profiles[pname],
                           "variant": {"keep_empty": True, "extra_ns": (pi + iterlib.hash_str(ik)) % 2 == 0},
                           "idx": model.indices[ik], "model_file": mpath, "dens": model.dens[ik], "depth": depth,
-                          "long": True, "bare": iterlib.pick_bare(ik + pname, ctx.seed, 3)})
+                          "long": True, "after_fail": True, "bare": iterlib.pick_bare(ik + pname, ctx.seed, 3)})
     ctx.note("%s: %d lists x %d layout tables (%s), %d cursor-graph edges; depth %d" % (
         tag, len(model.indices), len(profiles), ", ".join(sorted(profiles)), model.edges, depth))
     vs = ctx.run_cases(binary, "walk", cases, timeout_ms=300000, name="walk-" + tag)
